@@ -246,7 +246,8 @@ theorem broadcast_comm (a b : Shape) : broadcast a b = broadcast b a := Types.br
 
 /-- Obligation: the classes deriving from `Type` / `Natural` / `Shape` anywhere under `src/spox`, their
     bases and dataclass decorators (equality and hash are the generated field-wise ones: no class defines
-    `__eq__` / `__hash__`), and the methods among those that decide compatibility, broadcasting and the
+    `__eq__` / `__hash__`; no deciding method is wrapped by a decorator such as a cache; the only
+    class-level attribute with a value is the field default `Unknown.label`), and the methods among those that decide compatibility, broadcasting and the
     ONNX forms which each class defines, are exactly the ones `Model/Types.lean` describes. A new
     subclass, override, decorator change or unparsable file fails this whatever inputs are generated. -/
 theorem type_layer_inventory :
@@ -257,7 +258,7 @@ theorem type_layer_inventory :
        ("Shape", [], ["dataclass(frozen=True)"],
           ["__bool__", "__getitem__", "__le__", "broadcast", "can_broadcast", "from_onnx", "from_simple",
            "maybe_rank", "rank", "to_onnx", "to_simple"]),
-       ("Unknown", ["Natural"], ["dataclass(frozen=True)"], ["__le__", "to_simple"]),
+       ("Unknown", ["Natural"], ["dataclass(frozen=True)"], ["__le__", "attr:label", "to_simple"]),
        ("Optional", ["Type"], ["dataclass(frozen=True)"], ["_subtype", "_to_onnx"]),
        ("Sequence", ["Type"], ["dataclass(frozen=True)"], ["_subtype", "_to_onnx"]),
        ("Tensor", ["Type"], ["dataclass(frozen=True)"], ["__init__", "_subtype", "_to_onnx", "dtype", "shape"]),
